@@ -390,6 +390,7 @@ func (c *Checker) report(t0 time.Time, verbose bool) int {
 	}
 	exit := 0
 	var violations []string
+	os.RemoveAll(filepath.Join(c.Verif, "replays", id)) // replay files describe this run only
 	os.MkdirAll(filepath.Join(c.Verif, "replays", id), 0755)
 	for _, o := range failed {
 		e := c.EncOf[o]
